@@ -233,9 +233,54 @@ class Runner:
         finally:
             shutil.rmtree(cdir, ignore_errors=True)
 
+    def run_probe(self, case):
+        """oracle-only runs of the real binary that need no reference content:
+        * what = closed-pipe: the reports go to stdout, stdout is a pipe whose reading end is already closed (every write
+          fails with EPIPE at byte 0; Rust ignores SIGPIPE) - a write failure at any byte must end the run with an error;
+        * what = empty-export / empty-all: file output where the account selector matches nothing, so an export (and the
+          reports' bodies) may be empty - every announced path must exist as a regular file, nothing else may appear."""
+        self.n += 1
+        jname, inp = case["journal"], case["input"]
+        probe = make_probe(self.ws, jname)
+        cdir = os.path.join(self.ws, "runs", "probe-%d-%d" % (os.getpid(), self.n))
+        out_dir = os.path.join(cdir, "out")
+        os.makedirs(out_dir)
+        try:
+            cfg = os.path.join(cdir, "t.toml")
+            with open(cfg, "w") as f:
+                f.write(config_text(probe, "git" if inp == "git" else "fs", case["reports"], case["exports"]))
+            args = [common.TK_CLI, "--config", cfg]
+            if inp == "file":
+                args += ["--input.file", os.path.join(probe, "single.txn")]
+            if case["what"] == "closed-pipe":
+                r, w = os.pipe()
+                os.close(r)
+                try:
+                    p = subprocess.run(args, stdout=w, stderr=subprocess.PIPE, timeout=120, cwd=cdir)
+                finally:
+                    os.close(w)
+                return {"r": "OK", "exit": p.returncode, "stderr": p.stderr.decode("utf-8", "replace")[-200:],
+                        "extra": sorted(os.listdir(out_dir))}
+            args += ["--output.dir", out_dir, "--output.prefix", PREFIX, "--accounts", case["accounts"]]
+            p = subprocess.run(args, stdout=subprocess.PIPE, stderr=subprocess.PIPE, timeout=120, cwd=cdir)
+            announced = []
+            for ln in p.stdout.decode("utf-8", "replace").split("\n"):
+                if " : " in ln:
+                    announced.append(os.path.basename(ln.split(" : ", 1)[1]))
+            present = {}
+            for nme in sorted(os.listdir(out_dir)):
+                pth = os.path.join(out_dir, nme)
+                present[nme] = os.path.getsize(pth) if os.path.isfile(pth) and not os.path.islink(pth) else -1
+            return {"r": "OK", "exit": p.returncode, "announced": announced, "present": present,
+                    "stderr": p.stderr.decode("utf-8", "replace")[-200:]}
+        finally:
+            shutil.rmtree(cdir, ignore_errors=True)
+
     def run_case(self, case):
         if case.get("op") == "sub":
             return self.run_sub(case)
+        if case.get("op") == "probe":
+            return self.run_probe(case)
         self.n += 1
         jname, inp, mode = case["journal"], case["input"], case.get("mode", "files")
         probe = make_probe(self.ws, jname)
@@ -453,9 +498,26 @@ class C14(PropBase):
                 out.append({"op": "sub", "kind": "sub:%s:%s" % (cmd, "+".join(pre) or "fresh"), "cmd": cmd, "existing": list(pre)})
         return out
 
+    def gen_probe(self):
+        out = []
+        for inp in INPUTS:
+            for reps in (["balance"], ["register"], REPORTS):
+                out.append({"op": "probe", "kind": "probe:closed-pipe", "what": "closed-pipe", "journal": "small", "input": inp,
+                            "reports": list(reps), "exports": []})
+            out.append({"op": "probe", "kind": "probe:closed-pipe", "what": "closed-pipe", "journal": "large", "input": inp,
+                        "reports": ["register"], "exports": []})
+            # a selector that matches no account: the equity export is empty (zero bytes), the reports have no rows
+            out.append({"op": "probe", "kind": "probe:empty-export", "what": "empty-export", "journal": "small", "input": inp,
+                        "reports": [], "exports": ["equity"], "accounts": "zzz:never:posted"})
+            out.append({"op": "probe", "kind": "probe:empty-export", "what": "empty-export", "journal": "small", "input": inp,
+                        "reports": ["balance"], "exports": ["equity", "identity"], "accounts": "zzz:never:posted"})
+            out.append({"op": "probe", "kind": "probe:empty-export", "what": "empty-export", "journal": "small", "input": inp,
+                        "reports": REPORTS, "exports": EXPORTS, "accounts": "zzz:never:posted"})
+        return out
+
     def gen(self, rng, tier, focus=None):
         quick = tier != "thorough"
-        out = self.gen_sub()
+        out = self.gen_sub() + self.gen_probe()
         sz = {(j, i): self.sizes(j, i) for j in JOURNALS for i in INPUTS}
 
         # 1. one destination at a time (the limit is aimed at it): offset sweep
@@ -616,8 +678,8 @@ class C14(PropBase):
 
     def run_impl(self, impl_cases):
         res = [None] * len(impl_cases)
-        cli_idx = [i for i, c in enumerate(impl_cases) if c.get("op") in ("out", "sub")]
-        lib_idx = [i for i, c in enumerate(impl_cases) if c.get("op") not in ("out", "sub")]
+        cli_idx = [i for i, c in enumerate(impl_cases) if c.get("op") in ("out", "sub", "probe")]
+        lib_idx = [i for i, c in enumerate(impl_cases) if c.get("op") not in ("out", "sub", "probe")]
         if cli_idx:
             ws = self.ws()
             # baselines first (single process), then the sweep in single-threaded worker processes
@@ -689,6 +751,32 @@ class C14(PropBase):
             if not pre and (impl["rc"] != 0 or len(impl["created"]) < 7):
                 return {"sig": "sub-fresh-fails:%s" % case["cmd"], "what": "`tackler %s` in a fresh directory: exit %s, created %s: %s" % (
                     case["cmd"], impl["rc"], impl["created"], impl["stderr"])}
+            return None
+        if op == "probe":
+            ex = impl["exit"]
+            if ex not in (0, 1):
+                return {"sig": "crash", "what": "exit status %s: %s" % (ex, impl.get("stderr", ""))}
+            if case["what"] == "closed-pipe":
+                if ex == 0:
+                    return {"sig": "write-failure-success:closed-pipe",
+                            "what": "stdout is a pipe without reader (every write fails), reports %s: exit 0" % case["reports"]}
+                if impl.get("extra"):
+                    return {"sig": "stray-file", "what": "files created although no output directory was given: %s" % impl["extra"][:5]}
+                return None
+            planned = [fname(t) for t in case["reports"] + case["exports"]]
+            present = impl["present"]
+            for nme, size in present.items():
+                if size < 0:
+                    return {"sig": "announced-not-a-file", "what": "%s is not a regular file" % nme}
+                if nme not in planned:
+                    return {"sig": "stray-file", "what": "files created outside the destinations: %s" % nme}
+            if ex == 0:
+                if impl["announced"] != planned:
+                    return {"sig": "success-announcements", "what": "exit 0, announced %s, planned %s" % (impl["announced"], planned)}
+                missing = [n for n in impl["announced"] if n not in present]
+                if missing:
+                    return {"sig": "announced-missing", "what": "exit 0 and %s announced, but no such file exists (selector %r matches nothing)" % (
+                        missing, case["accounts"])}
             return None
         if op == "wfail":
             self.remember({k: v for k, v in case.items() if k != "text"})
